@@ -15,6 +15,10 @@ def gen_vec(rng, dom, n, shape=None):
         v = [rng.choice([0.0, rng.uniform(-8, 8), float(rng.randint(-3, 3))]) for _ in range(n)]
     elif dom == "nonneg":
         v = [rng.choice([0.0, rng.uniform(0, 8), float(rng.randint(0, 3))]) for _ in range(n)]
+    elif dom == "pos":
+        # user-level domain of the decorated ratio/log metrics: non-negative entries (the EPSILON shift makes them
+        # strictly positive), so exact zeros are included
+        v = [0.0 if rng.random() < 0.15 else (rng.uniform(0.01, 10) if rng.random() < 0.8 else float(rng.randint(1, 4))) for _ in range(n)]
     else:
         v = [rng.uniform(0.01, 10) if rng.random() < 0.8 else float(rng.randint(1, 4)) for _ in range(n)]
     if dom == "prob":
@@ -61,15 +65,20 @@ def main(tier, seed):
         claims = T.claims(name)
 
         def f(a, b):
-            return float(fn(np.array(a, dtype=float), np.array(b, dtype=float)))
+            return float(fn(a, b))
         for r in range(reps):
             n = 1 if r % 7 == 0 else rng.randint(2, 7)
             x, y, z = triple(rng, dom, n)
+            xl, yl, zl = x, y, z
+            # the SAME array objects are used for all five evaluations of a triple (as a caller would)
+            x, y, z = np.array(xl, dtype=float), np.array(yl, dtype=float), np.array(zl, dtype=float)
+            if xl == yl:
+                y = x.copy()
             if n == 1:
                 stats["one_dim"] += 1
-            if x == y:
+            if xl == yl:
                 stats["identical"] += 1
-            if 0.0 in x or 0.0 in y:
+            if 0.0 in xl or 0.0 in yl:
                 stats["zero_containing"] += 1
             try:
                 fxy, fyx, fxx = f(x, y), f(y, x), f(x, x)
@@ -80,21 +89,21 @@ def main(tier, seed):
                 key = "finite:" + name
                 if key not in seen_keys and len(seen_keys) < 6:
                     seen_keys.add(key)
-                    rep.violation("%s raises ZeroDivisionError on its domain" % name, dict(metric=name, x=x, y=y, z=z), key=key)
+                    rep.violation("%s raises ZeroDivisionError on its domain" % name, dict(metric=name, x=xl, y=yl, z=zl), key=key)
                 continue
             stats["evaluations"] += 5
-            rep.count_case((name, tuple(x), tuple(y), tuple(z)), True)
+            rep.count_case((name, tuple(xl), tuple(yl), tuple(zl)), True)
             scale = max(1.0, abs(fxy), abs(fyz), abs(fxz))
             msg = key = None
             if not all(math.isfinite(v) for v in (fxy, fyx, fxx, fyz, fxz)):
                 bad = [(a, b) for (a, b, v) in ((x, y, fxy), (y, x, fyx), (x, x, fxx), (y, z, fyz), (x, z, fxz)) if not math.isfinite(v)][0]
-                msg = "%s returns a non-finite value on its domain: f(%r, %r) = %r" % (name, bad[0], bad[1], f(*bad)); key = "finite:" + name
-                x, y = bad
+                msg = "%s returns a non-finite value on its domain: f(%r, %r) = %r" % (name, list(bad[0]), list(bad[1]), f(*bad)); key = "finite:" + name
+                xl, yl = list(map(float, bad[0])), list(map(float, bad[1]))
             elif "sym" in claims and abs(fxy - fyx) > 1e-9 * scale:
                 msg = "%s is not symmetric: f(x,y)=%r, f(y,x)=%r" % (name, fxy, fyx); key = "sym:" + name
             elif "nonneg" in claims and min(fxy, fyz, fxz) < -1e-9 * scale:
                 msg = "%s is negative: %r" % (name, min(fxy, fyz, fxz)); key = "nonneg:" + name
-            elif "zero_self" in claims and abs(fxx) > 1e-7 * max(1.0, max(abs(v) for v in x)):
+            elif "zero_self" in claims and abs(fxx) > 1e-7 * max(1.0, max(abs(v) for v in xl)):
                 msg = "%s(x, x) = %r, expected 0" % (name, fxx); key = "zero_self:" + name
             elif "triangle" in claims and fxz > fxy + fyz + 1e-9 * scale:
                 msg = "%s violates the triangle inequality: d(x,z)=%r > d(x,y)+d(y,z)=%r" % (name, fxz, fxy + fyz); key = "triangle:" + name
@@ -102,7 +111,7 @@ def main(tier, seed):
                 nviol += 1
                 if key not in seen_keys and len(seen_keys) < 6:
                     seen_keys.add(key)
-                    rep.violation(msg, dict(metric=name, x=x, y=y, z=z), key=key)
+                    rep.violation(msg, dict(metric=name, x=xl, y=yl, z=zl), key=key)
     rep.corr["axiom_oracle"] = dict(cases=stats["evaluations"], distribution=stats)
     rep.extra["oracle_violations"] = nviol
     rep.samples = [dict(metric="canberra", domain="pos", claims=T.claims("canberra")),
